@@ -3,11 +3,12 @@ CONSTANTS
   MaxH = 9
   Page = 4
   TSet = {0}
+  RSet = {}
   RUB = FALSE
   MTB = 0
   GCP = 1
   MaxCrash = 2
   MaxReset = 1
   Dev = {}
-INVARIANTS AbsAnswers AbsTip AbsHeights AbsReset CanRestart NoDead MemCanonical RestartTransparent DiskPages
+INVARIANTS AbsAnswers AbsTip AbsHeights AbsReset CanRestart NoDead MemCanonical RestartTransparent DiskPages KeepsList
 CHECK_DEADLOCK FALSE
